@@ -148,6 +148,46 @@ Definition thm_hyp04 (c : caseD) : bool :=
 Definition theorem_predicts04 (x : N) (s : swrec) (d : list byte) (oc : N) : bool :=
   negb (sw_ok s && payload_ok s && (x <? 4294967296)) || (bytes_eqb (wire (sw_tree x s)) d && N.eqb oc 0).
 
+(* known finding D49: a packet-in (type 10) whose packet data is not a frame the packet decoder
+   accepts (fewer than 14 bytes, an IPv6 hop-by-hop header with a Pad1 option, ...) is refused
+   as a whole.  The data starts behind the match (padded to 8) and two pad bytes. *)
+Definition pktin_data (d : list byte) : list byte :=
+  let mlen := b2n (nth 26 d x00) * 256 + b2n (nth 27 d x00) in
+  skipn (N.to_nat (24 + round8 mlen + 2)) d.
+Definition is_d49 (d : list byte) : bool :=
+  match d with
+  | _ :: ty :: _ => N.eqb (b2n ty) 10 && negb (match pktin_data d with [] => true | _ => false end)
+                    && negb (is_okb (dec_eth (pktin_data d)))
+  | _ => false
+  end.
+(* known finding D50: conformant messages carrying standard OpenFlow 1.3 elements the library has
+   no codec for are refused as a whole: a port-description multipart reply (type 13); a
+   packet-in whose match holds in_phy_port / vlan_pcp / ip_ecn (OXM basic class, fields 1, 7,
+   9); a flow-statistics reply whose first record starts its instructions with a meter
+   instruction or with apply-actions of a set_nw_ttl / set_mpls_ttl action *)
+Fixpoint oxm_has_uncoded (fuel : nat) (m : list byte) : bool :=
+  match fuel with
+  | O => false
+  | S f =>
+    match m with
+    | c1 :: c0 :: fh :: ln :: r =>
+      let fld := b2n fh / 2 in
+      if N.eqb (b2n c1) 128 && N.eqb (b2n c0) 0 && (N.eqb fld 1 || N.eqb fld 7 || N.eqb fld 9) then true
+      else oxm_has_uncoded f (skipn (N.to_nat (b2n ln)) r)
+    | _ => false
+    end
+  end.
+Definition is_d50 (d : list byte) : bool :=
+  match d with
+  | _ :: ty :: _ =>
+    let u16 (i : nat) := b2n (nth i d x00) * 256 + b2n (nth (S i) d x00) in
+    (N.eqb (b2n ty) 19 && N.eqb (u16 8%nat) 13)
+    || (N.eqb (b2n ty) 10 && oxm_has_uncoded 64 (firstn (N.to_nat (u16 26%nat - 4)) (skipn 28 d)))
+    || (N.eqb (b2n ty) 19 && N.eqb (u16 8%nat) 1
+        && (N.eqb (u16 72%nat) 6 || (N.eqb (u16 72%nat) 4 && (N.eqb (u16 80%nat) 23 || N.eqb (u16 80%nat) 15))))
+  | _ => false
+  end.
+
 Definition check04_with (predicted : bool) (input : list int) (oc : int) (re : list int) (lenv same known : int) : verdict :=
     let d := unpack input in
     let agree := model_agrees d (n_of oc) (unpack re) (n_of lenv) true && predicted in
@@ -155,6 +195,8 @@ Definition check04_with (predicted : bool) (input : list int) (oc : int) (re : l
     if accept then mkv agree true
     else if agree && N.eqb (n_of known) 37 && is_echo_with_body d && N.eqb (n_of oc) 0 then VKnown 37
     else if agree && N.eqb (n_of known) 13 && is_d13 d then VKnown 13
+    else if agree && N.eqb (n_of known) 49 && is_d49 d && N.eqb (n_of oc) 1 then VKnown 49
+    else if agree && N.eqb (n_of known) 50 && is_d50 d && N.eqb (n_of oc) 1 then VKnown 50
     else mkv agree false.
 
 Definition check04 (c : caseD) : verdict :=
@@ -167,6 +209,8 @@ Definition check04 (c : caseD) : verdict :=
     if accept then mkv agree true
     else if agree && N.eqb (n_of known) 37 && is_echo_with_body d && N.eqb (n_of oc) 0 then VKnown 37
     else if agree && N.eqb (n_of known) 13 && is_d13 d then VKnown 13
+    else if agree && N.eqb (n_of known) 49 && is_d49 d && N.eqb (n_of oc) 1 then VKnown 49
+    else if agree && N.eqb (n_of known) 50 && is_d50 d && N.eqb (n_of oc) 1 then VKnown 50
     else mkv agree false
   | _ => VBad
   end.
